@@ -1525,6 +1525,250 @@ def rule_r13(chk, p, t):
     C05.rule_r10(chk, p, t, rid="C01.R13")
 
 
+# ====================================================================== R14
+BIAS_FIELD = "sensor_time_bias_event_queue"
+_BIAS_TIME_ATTRS = {"start_time_jd": "start", "end_time_jd": "end"}
+_NOW_ATTRS = ("julian_date_epoch",)
+
+
+def _bias_keep_pred(p):
+    """retention predicate of pruneTimeBiasEvents over (start, end, now)"""
+    pb = p.func("SensingAgent.pruneTimeBiasEvents")
+    comps = [n for n in walk_no_nested(pb.node) if isinstance(n, ast.ListComp)]
+    require(len(comps) == 1 and len(comps[0].generators) == 1 and comps[0].generators[0].ifs, "pruneTimeBiasEvents is not a single filtering list comprehension", pb.node)
+    gen = comps[0].generators[0]
+    var = gen.target.id
+
+    def symf(e):
+        if isinstance(e, ast.Attribute) and isinstance(e.value, ast.Name):
+            if e.value.id == "self" and e.attr in _NOW_ATTRS:
+                return "now"
+            if e.value.id == var and e.attr in _BIAS_TIME_ATTRS:
+                return _BIAS_TIME_ATTRS[e.attr]
+        raise Undecided(f"unknown operand in pruneTimeBiasEvents: {unparse(e)}", e)
+
+    return O.And(*[O.from_ast(i, symf) for i in gen.ifs])
+
+
+def rule_r14(chk, p, t):
+    r = chk.rule(
+        "C01.R14",
+        "a retained time-bias event is the one that is applied",
+        2,
+        "a time-bias event is active in exactly the steps its interval overlaps: delivery (R2) and retention (R5) decide "
+        "membership of the sensor's queue, so every consumer of the queue outside the owning agent applies the bias "
+        "whenever the queue is non-empty.  Any further condition on the way to the applied bias is either an error guard "
+        "(a test whose branch only raises), a test of the queue / of a value read from it for emptiness, or a time "
+        "predicate over (start, end, now) - which must then hold for every retained event, on every weak ordering of the "
+        "three dates (a half-open `start <= now < end` drops the step whose closing epoch is the event's end).  Anything "
+        "else is undecided",
+        "the biased propagation itself",
+    )
+    owner = p.cls("resonaate.agents.sensing_agent.SensingAgent")
+    own_names = set(QUEUES[BIAS_FIELD][1:]) | {"__init__"}
+    keepb = _bias_keep_pred(p)
+
+    def mentions(node):
+        return any(isinstance(n, ast.Attribute) and n.attr == BIAS_FIELD for n in ast.walk(node))
+
+    readers = [fi for fi in p.all_functions(include_nested=True) if mentions(fi.node) and not (fi.cls is not None and (fi.cls is owner or owner in p.mro(fi.cls)) and fi.name in own_names)]
+    if not readers:
+        r.error("consumers", f"no consumer of {BIAS_FIELD} found outside its owner (2 confirmed by hand in Sensor)")
+        return
+    # accessors: functions whose every returned value is read directly off the queue (the queue, an element, an
+    # attribute of an element, None); only their results carry queue contents to a caller
+    def direct(e, names, accessors):
+        if isinstance(e, ast.Constant) and e.value is None:
+            return True
+        if isinstance(e, ast.IfExp):
+            return direct(e.body, names, accessors) and direct(e.orelse, names, accessors)
+        if isinstance(e, ast.Call) and isinstance(e.func, ast.Attribute) and isinstance(e.func.value, ast.Name) and e.func.value.id in ("self", "cls") and e.func.attr in accessors:
+            return True
+        b = e
+        while isinstance(b, (ast.Attribute, ast.Subscript)):
+            if isinstance(b, ast.Attribute) and b.attr == BIAS_FIELD:
+                return True
+            b = b.value
+        return isinstance(b, ast.Name) and b.id in names
+
+    def derived_names(fn, accessors):
+        names = set()
+        changed = True
+        while changed:
+            changed = False
+            for n in ast.walk(fn):
+                src_, tgt = None, None
+                if isinstance(n, ast.Assign) and len(n.targets) == 1:
+                    src_, tgt = n.value, n.targets[0]
+                elif isinstance(n, ast.NamedExpr):
+                    src_, tgt = n.value, n.target
+                elif isinstance(n, (ast.For, ast.comprehension)):
+                    src_, tgt = n.iter, n.target
+                if src_ is not None and direct(src_, names, accessors) and not (isinstance(src_, ast.Constant)):
+                    for x in ast.walk(tgt):
+                        if isinstance(x, ast.Name) and x.id not in names:
+                            names.add(x.id)
+                            changed = True
+        return names
+
+    reader_names = {fi.name for fi in readers}
+    accessors = set()
+    changed = True
+    while changed:
+        changed = False
+        for fi in p.all_functions(include_nested=False):
+            if fi.name in accessors or fi.cls is None or not (mentions(fi.node) or any(isinstance(n, ast.Call) and isinstance(n.func, ast.Attribute) and n.func.attr in accessors for n in ast.walk(fi.node))):
+                continue
+            if fi.cls is owner or owner in p.mro(fi.cls):
+                continue
+            rets = [n for n in walk_no_nested(fi.node) if isinstance(n, ast.Return)]
+            names = derived_names(fi.node, accessors)
+            if rets and all(n.value is None or direct(n.value, names, accessors) for n in rets) and any(n.value is not None and not isinstance(n.value, ast.Constant) for n in rets):
+                accessors.add(fi.name)
+                changed = True
+    consumers = list(readers)
+    for fi in p.all_functions(include_nested=True):
+        if fi in consumers:
+            continue
+        if any(isinstance(n, ast.Call) and isinstance(n.func, ast.Attribute) and n.func.attr in accessors and isinstance(n.func.value, ast.Name) and n.func.value.id in ("self", "cls") for n in ast.walk(fi.node)):
+            consumers.append(fi)
+
+    def check(fi):
+        fn = fi.node
+        par = parents_map(fn)
+        defs = single_defs(fn)
+
+        def is_reader_call(n):
+            return isinstance(n, ast.Call) and isinstance(n.func, ast.Attribute) and n.func.attr in accessors and isinstance(n.func.value, ast.Name) and n.func.value.id in ("self", "cls")
+
+        derived = derived_names(fn, accessors)
+
+        def queueish(node):
+            return any((isinstance(n, ast.Attribute) and n.attr == BIAS_FIELD) or is_reader_call(n) or (isinstance(n, ast.Name) and n.id in derived) for n in ast.walk(node))
+
+        def is_site(n):
+            if isinstance(n, ast.Call) and isinstance(n.func, ast.Attribute) and n.func.attr in reader_names and isinstance(n.func.value, ast.Name) and n.func.value.id in ("self", "cls"):
+                return True  # a helper that reads the queue itself
+            return (isinstance(n, ast.Attribute) and n.attr == BIAS_FIELD) or is_reader_call(n) or (isinstance(n, ast.Name) and isinstance(n.ctx, ast.Load) and n.id in derived)
+
+        def strip(test):
+            # emptiness sub-terms hold whenever an event is queued
+            if isinstance(test, ast.BoolOp):
+                return ast.BoolOp(op=test.op, values=[strip(v) for v in test.values])
+            if isinstance(test, ast.UnaryOp) and isinstance(test.op, ast.Not):
+                return ast.UnaryOp(op=test.op, operand=strip(test.operand))
+            if not time_related(test) and emptiness(test):
+                return ast.Constant(True)
+            return test
+
+        def only_raises(body):
+            return all(isinstance(s, ast.Raise) for s in body)
+
+        def terminates(body):
+            return bool(body) and isinstance(body[-1], (ast.Return, ast.Raise, ast.Continue, ast.Break))
+
+        def symf(e, depth=0):
+            if isinstance(e, ast.Attribute) and e.attr in _BIAS_TIME_ATTRS and queueish(e.value):
+                return _BIAS_TIME_ATTRS[e.attr]
+            if isinstance(e, ast.Attribute) and e.attr in _NOW_ATTRS:
+                return "now"
+            if isinstance(e, ast.Name) and e.id in defs and defs[e.id] is not None and depth < 4:
+                return symf(defs[e.id], depth + 1)
+            if isinstance(e, ast.Call) and call_name(e) in ("float", "JulianDate") and len(e.args) == 1:
+                return symf(e.args[0], depth + 1)
+            raise Undecided(f"unknown operand `{unparse(e)}` in a condition on the way to the applied time bias", e)
+
+        def time_related(test):
+            return any(isinstance(n, ast.Attribute) and (n.attr in _BIAS_TIME_ATTRS or n.attr in ("start_time", "end_time") or n.attr in _NOW_ATTRS) for n in ast.walk(test)) or any(
+                isinstance(n, ast.Name) and n.id in defs and defs[n.id] is not None and any(isinstance(m, ast.Attribute) and (m.attr in _BIAS_TIME_ATTRS or m.attr in _NOW_ATTRS) for m in ast.walk(defs[n.id])) for n in ast.walk(test)
+            )
+
+        def emptiness(test):
+            # every leaf is the queue, a value read from it, or a constant
+            for n in ast.walk(test):
+                if isinstance(n, ast.Name) and n.id not in derived and n.id not in ("self", "len", "bool", "any", "None"):
+                    if not any(n is m for a in ast.walk(test) if isinstance(a, ast.Attribute) and mentions(a) for m in ast.walk(a)):
+                        return False
+                if isinstance(n, ast.Attribute) and not mentions(n) and not any(n is m for a in ast.walk(test) if isinstance(a, ast.Attribute) and mentions(a) for m in ast.walk(a)):
+                    if not (is_reader_call(par.get(n)) and par.get(n).func is n):
+                        return False
+            return queueish(test)
+
+        conds = []  # (test, polarity) on the way to a site
+        seen = set()
+        for site in ast.walk(fn):
+            if not is_site(site):
+                continue
+            child = site
+            node = par.get(site)
+            while node is not None and node is not fn:
+                if isinstance(node, (ast.If, ast.While, ast.IfExp)):
+                    in_test = any(child is x for x in ast.walk(node.test))
+                    if not in_test:
+                        body = node.body if isinstance(node.body, list) else [node.body]
+                        pos = any(child is x for b in body for x in ast.walk(b))
+                        if isinstance(node, ast.If) and pos and only_raises(node.body):
+                            pass
+                        elif (id(node), pos) not in seen:
+                            seen.add((id(node), pos))
+                            conds.append((node.test, pos, node))
+                elif isinstance(node, ast.comprehension):
+                    pass
+                elif isinstance(node, (ast.ListComp, ast.GeneratorExp, ast.SetComp, ast.DictComp)):
+                    for g in node.generators:
+                        for i in g.ifs:
+                            if not any(child is x for x in ast.walk(i)) and (id(i), True) not in seen:
+                                seen.add((id(i), True))
+                                conds.append((i, True, i))
+                # guard clauses before the site in the same block
+                for fld in ("body", "orelse", "finalbody"):
+                    blk = getattr(node, fld, None)
+                    if isinstance(blk, list) and any(child is s for s in blk):
+                        for s in blk:
+                            if s is child:
+                                break
+                            if isinstance(s, ast.If) and terminates(s.body) and not s.orelse and not only_raises(s.body) and (id(s), False) not in seen:
+                                seen.add((id(s), False))
+                                conds.append((s.test, False, s))
+                child = node
+                node = par.get(node)
+            # guard clauses at function top level
+            for s in fn.body:
+                if s is child:
+                    break
+                if isinstance(s, ast.If) and terminates(s.body) and not s.orelse and not only_raises(s.body) and (id(s), False) not in seen:
+                    seen.add((id(s), False))
+                    conds.append((s.test, False, s))
+        n_ok = 0
+        for test, pos, node in conds:
+            cons = f"{fi.qualname}:{norm_stmt(test)[:60]}"
+            if time_related(test):
+                pred = O.from_ast(strip(test), symf)
+                if not pos:
+                    pred = O.Not(pred)
+                bad = []
+                for env in O.all_orderings(["start", "end", "now"], O.Cmp("<=", "start", "end")):
+                    r.paths_enumerated += 1
+                    if keepb.ev(env) and not pred.ev(env):
+                        bad.append(O.describe(env))
+                if bad:
+                    r.violation(cons, "retained-not-applied:" + ";".join(bad), f"the time bias is applied only under `{'' if pos else 'not '}{unparse(test)}`, which excludes an event the retention predicate of pruneTimeBiasEvents keeps on orderings {bad} of (start, end, now): the event is delivered and queued for a step its interval overlaps but is not active in it", fi.loc(node))
+                else:
+                    n_ok += 1
+            elif emptiness(test):
+                n_ok += 1
+            else:
+                r.undecided(cons, f"the applied time bias depends on `{unparse(test)}`, which is neither an emptiness test of the queue, an error guard nor a time predicate over (start, end, now)", fi.loc(node))
+        return n_ok
+
+    for fi in consumers:
+        def one(fi=fi):
+            n_ok = check(fi)
+            r.ok(fi.qualname, f"bias applied whenever the queue holds an event ({n_ok} emptiness / time conditions, all implied by retention)", fi.loc())
+
+        r.guard(fi.qualname, one)
+
+
 def run(chk, p, t):
     chk.explanation = (
         "Static decision of structural necessary conditions of C01 on the current source: (R1) window tiling "
@@ -1541,7 +1785,7 @@ def run(chk, p, t):
         "agent time equals the clock time before the tick when prunePropagateEvents runs (PropagateRegistration.generateSubmission)",
         "call resolution by the repo's annotations and class-hierarchy analysis",
     ]
-    for fn in (rule_r1, rule_r2, rule_r3, rule_r4, rule_r5, rule_r6, rule_r7, rule_r8, rule_r9, rule_r10, rule_r11, rule_r12, rule_r13):
+    for fn in (rule_r1, rule_r2, rule_r3, rule_r4, rule_r5, rule_r6, rule_r7, rule_r8, rule_r9, rule_r10, rule_r11, rule_r12, rule_r13, rule_r14):
         rid = "C01.R" + fn.__name__.split("_r")[-1]
         if not chk.wants(rid):
             continue
